@@ -98,7 +98,7 @@ func checkC21(p *Prog, r *Report) {
 	{
 		var app *ssa.Call
 		// the append into the result slice: the one control-dependent on shouldExcludeMatch
-		eachInstr(glob, false, func(_ *ssa.Function, i ssa.Instruction) {
+		eachInstrS(glob, func(_ *ssa.Function, i ssa.Instruction) {
 			c, ok := i.(*ssa.Call)
 			if !ok {
 				return
@@ -121,7 +121,7 @@ func checkC21(p *Prog, r *Report) {
 			facts := factsAt(app)
 			sub := callFact(facts, false, isIn) != nil
 			var hiddenPrm *ssa.Parameter
-			for _, prm := range glob.Params {
+			for _, prm := range app.Parent().Params { // (the filtering loop may be a private helper with its own parameter)
 				if prm.Name() == "includeHidden" {
 					hiddenPrm = prm
 				}
@@ -401,15 +401,44 @@ func checkC21(p *Prog, r *Report) {
 		}
 		for _, l := range sliceRangeLoops(shouldExcl) {
 			if exP != nil && derivesFromValue(l.over, exP) {
-				tried = !l.iterationSkips(func(i ssa.Instruction) bool {
+				// (the per-pattern work may be a private helper that matches on every path)
+				// (the per-pattern work may be a private helper; the loop goes on to the next pattern only when the helper
+				// answered (false, nil), so those are the returns that must have passed Match)
+				isMatch := func(i ssa.Instruction) bool {
 					cc := callCommon(i)
 					return cc != nil && cc.IsInvoke() && cc.Method.Name() == "Match"
+				}
+				tried = !l.iterationSkips(func(i ssa.Instruction) bool {
+					if isMatch(i) {
+						return true
+					}
+					c, ok := i.(*ssa.Call)
+					if !ok {
+						return false
+					}
+					g := c.Call.StaticCallee()
+					if g == nil || g.Blocks == nil || !isSatelliteOf(g, shouldExcl) || g.Signature.Results().Len() != 2 {
+						return false
+					}
+					for _, ret := range returnsOf(g) {
+						r0, r1 := unspill(ret.Results[0]), unspill(ret.Results[1])
+						if b, isC := constBool(r0); isC && b {
+							continue // excluded: the caller returns
+						}
+						if !isNilConst(r1) && isSurelyNonNil(r1, condFacts(ret.Block())) {
+							continue // error: the caller returns
+						}
+						if existsPath(g, nil, ret, isMatch) {
+							return false
+						}
+					}
+					return true
 				})
 			}
 		}
 		r.check(tried, rule, "every exclude pattern is matched", p.pos(shouldExcl.Pos()), fnName(shouldExcl), "each iteration over excludes reaches matcher.Match (or returns)", "an exclude pattern can be skipped without being matched against the file")
 		base := false
-		eachInstr(shouldExcl, false, func(_ *ssa.Function, i ssa.Instruction) {
+		eachInstrS(shouldExcl, func(_ *ssa.Function, i ssa.Instruction) {
 			if c, ok := i.(*ssa.Call); ok && isCallTo(c, "path/filepath.Base") {
 				for _, f := range factsAt(c) {
 					if cc, ok := f.V.(*ssa.Call); ok && isCallTo(cc, "strings.ContainsRune", "strings.Contains") && !f.Val {
@@ -427,7 +456,8 @@ func (p *Prog) runPrefixRuleFns(r *Report, rule string, fns []*ssa.Function, flo
 	n := 0
 	// sites the generic collector does not tag (plain string parameters): handle HasPrefix(name, dir+"/") directly
 	for _, fn := range fns {
-		eachInstr(fn, false, func(_ *ssa.Function, i ssa.Instruction) {
+		// (closures and private helpers included: the loop may be slices.ContainsFunc(dirs, func(dir string) bool {...}))
+		eachInstr(fn, true, func(_ *ssa.Function, i ssa.Instruction) {
 			c, ok := i.(*ssa.Call)
 			if !ok || !isCallTo(c, "strings.HasPrefix") {
 				return
